@@ -11,6 +11,7 @@ package cache
 // See check.json.
 
 import (
+	"reflect"
 	"bytes"
 	"compress/flate"
 	stdgzip "compress/gzip"
@@ -45,6 +46,7 @@ import (
 const (
 	c19DumpAt    = 8 * time.Second // virtual instant of the dump; entries are stored in [0s, 8s]
 	c19HeapLimit = 256 << 20       // heap growth allowed for one load
+	c19PeakLimit = 48 << 20        // live heap (after a forced collection) allowed at any read of the input, adversarial files
 	c19ReadLimit = 1 << 20         // reads tolerated after the input reported EOF
 	c19GcWindow  = 400 * time.Second
 	c19Size      = 1 << 16 // 1024 entries per store shard: the contents (<= 300 entries) are never evicted
@@ -99,7 +101,52 @@ var c19Tpls = []c19Tpl{
 	{Recs: []c19Rec{{1, 300}}, Rcode: dns.RcodeServerFailure},
 }
 
-func c19Name(i int) string { return fmt.Sprintf("e%03d.c19.test.", i) }
+// The questions of the contents vary with the entry: names of up to 200 octets,
+// types with a low / high byte >= 0x80, classes other than IN (the key of a dump
+// entry is binary: every byte value may occur in it).
+func c19Name(i int) string {
+	if i%13 == 5 {
+		return fmt.Sprintf("e%03d.%s.%s.%s.c19.test.", i, strings.Repeat("x", 60), strings.Repeat("y", 60), strings.Repeat("z", 60))
+	}
+	return fmt.Sprintf("e%03d.c19.test.", i)
+}
+
+var c19QTypes = []uint16{dns.TypeA, dns.TypeAAAA, dns.TypeANY, dns.TypeTXT, 0x01ff, 0x8001, dns.TypeA, 0xff00}
+
+func c19QTC(i int) (uint16, uint16) {
+	t, c := c19QTypes[i%len(c19QTypes)], uint16(dns.ClassINET)
+	switch {
+	case i%5 == 3:
+		c = dns.ClassCHAOS
+	case i%11 == 7:
+		c = dns.ClassANY
+	case i%17 == 9:
+		c = 0x80fe
+	}
+	return t, c
+}
+
+// c19Question builds the question of entry i (i < 0: a plain A/IN question for name).
+func c19Question(i int, name string) *dns.Msg {
+	q := new(dns.Msg)
+	if i < 0 {
+		q.SetQuestion(name, dns.TypeA)
+		return q
+	}
+	t, c := c19QTC(i)
+	q.SetQuestion(c19Name(i), t)
+	q.Question[0].Qclass = c
+	return q
+}
+
+// c19Index recovers the entry index from one of its names (-1: not an entry name).
+func c19Index(name string) int {
+	var i int
+	if n, _ := fmt.Sscanf(name, "e%03d.", &i); n == 1 && c19Name(i) == name {
+		return i
+	}
+	return -1
+}
 
 func c19Build(tp c19Tpl, q *dns.Msg, i int) *dns.Msg {
 	m := new(dns.Msg)
@@ -144,8 +191,7 @@ func (u *c19Up) Exec(ctx context.Context, qCtx *query_context.Context) error {
 }
 
 func c19Exec(c *Cache, u *c19Up, name string, id uint16) (hit bool, resp *dns.Msg) {
-	q := new(dns.Msg)
-	q.SetQuestion(name, dns.TypeA)
+	q := c19Question(c19Index(name), name)
 	q.Id = id
 	qCtx := query_context.NewContext(q)
 	u.fgHad = false
@@ -237,9 +283,22 @@ func c19Populate(cf c19Conf, mainID int, args *Args) (*Cache, *c19Up, int) {
 type c19Reader struct {
 	r        io.Reader
 	afterEOF int
+	// peak sampling (adversarial files only): live heap after a forced collection
+	// at every read of the input, relative to base
+	sample bool
+	base   uint64
+	peak   int64
 }
 
 func (g *c19Reader) Read(p []byte) (int, error) {
+	if g.sample {
+		var m runtime.MemStats
+		runtime.GC()
+		runtime.ReadMemStats(&m)
+		if d := int64(m.HeapAlloc) - int64(g.base); d > g.peak {
+			g.peak = d
+		}
+	}
 	n, err := g.r.Read(p)
 	if err == io.EOF {
 		g.afterEOF++
@@ -258,12 +317,24 @@ func c19Get(c *Cache) (int, []byte) {
 }
 
 func c19Post(c *Cache, data []byte) (int, string) {
+	code, body, _ := c19PostPeak(c, data, false)
+	return code, body
+}
+
+func c19PostPeak(c *Cache, data []byte, sample bool) (int, string, int64) {
 	rec := httptest.NewRecorder()
 	req := httptest.NewRequest(http.MethodPost, "/load_dump", nil)
-	req.Body = &c19Reader{r: bytes.NewReader(data)}
+	rd := &c19Reader{r: bytes.NewReader(data), sample: sample}
+	if sample {
+		var m runtime.MemStats
+		runtime.GC()
+		runtime.ReadMemStats(&m)
+		rd.base = m.HeapAlloc
+	}
+	req.Body = rd
 	req.ContentLength = int64(len(data))
 	c.Api().ServeHTTP(rec, req)
-	return rec.Code, strings.TrimSpace(rec.Body.String())
+	return rec.Code, strings.TrimSpace(rec.Body.String()), rd.peak
 }
 
 type c19Snap struct {
@@ -271,6 +342,31 @@ type c19Snap struct {
 	Stored   int64 // unix ns
 	MsgExp   int64
 	CacheExp int64
+}
+
+// c19WithKey / c19KeyOf access the key field of a dump entry through reflection,
+// so that the harness keeps compiling when a change gives the field another
+// type (bytes <-> string).
+func c19WithKey(e *CachedEntry, k string) *CachedEntry {
+	f := reflect.ValueOf(e).Elem().FieldByName("Key")
+	switch f.Kind() {
+	case reflect.String:
+		f.SetString(k)
+	case reflect.Slice:
+		f.SetBytes([]byte(k))
+	}
+	return e
+}
+
+func c19KeyOf(e *CachedEntry) string {
+	f := reflect.ValueOf(e).Elem().FieldByName("Key")
+	switch f.Kind() {
+	case reflect.String:
+		return f.String()
+	case reflect.Slice:
+		return string(f.Bytes())
+	}
+	return ""
 }
 
 // c19Canon: canonical form of a message for equality (uncompressed wire format).
@@ -328,7 +424,7 @@ func c19Decode(d []byte) (map[string]c19Snap, []int, int, error) {
 			if err := m.Unpack(e.GetMsg()); err != nil {
 				return nil, nil, 0, err
 			}
-			out[string(e.GetKey())] = c19Snap{Msg: c19Canon(m), Stored: time.Unix(e.GetMsgStoredTime(), 0).UnixNano(),
+			out[c19KeyOf(e)] = c19Snap{Msg: c19Canon(m), Stored: time.Unix(e.GetMsgStoredTime(), 0).UnixNano(),
 				MsgExp: time.Unix(e.GetMsgExpirationTime(), 0).UnixNano(), CacheExp: time.Unix(e.GetCacheExpirationTime(), 0).UnixNano()}
 		}
 	}
@@ -480,7 +576,7 @@ func c19RunRoundtrip(in c19RtIn, verbose bool) c19Verdict {
 		var plan []probe
 		epoch := vs.Epoch.UnixNano()
 		for i := 0; i < cf.N; i++ {
-			k := verifMsgKey(func() *dns.Msg { q := new(dns.Msg); q.SetQuestion(c19Name(i), dns.TypeA); return q }())
+			k := verifMsgKey(c19Question(i, ""))
 			pts := []probe{{loadAt, i, "load"}, {loadAt + 1, i, "load+1ns"}, {loadAt + time.Second - 1, i, "load+1s-1ns"}, {loadAt + time.Second, i, "load+1s"}}
 			if s, ok := snapA[k]; ok {
 				for bi, bnd := range []int64{s.MsgExp, s.CacheExp} {
@@ -524,7 +620,7 @@ func c19RunRoundtrip(in c19RtIn, verbose bool) c19Verdict {
 			if n%64 == 63 {
 				c19Yield()
 			}
-			k := verifMsgKey(func() *dns.Msg { q := new(dns.Msg); q.SetQuestion(c19Name(p.i), dns.TypeA); return q }())
+			k := verifMsgKey(c19Question(p.i, ""))
 			sa := snapA[k]
 			tol := cf.Subsec && (sa.Stored%int64(time.Second) != 0)
 			now := vs.Now().UnixNano()
@@ -583,10 +679,15 @@ type c19Load struct {
 	Panic   string
 	Infra   string
 	Growth  int64
+	Peak    int64 // sampled live-heap peak (adversarial family), 0 otherwise
 	Entries map[string]c19Snap
 }
 
 func c19LoadAt(at time.Duration, lazy int, data []byte) c19Load {
+	return c19LoadAtPeak(at, lazy, data, false)
+}
+
+func c19LoadAtPeak(at time.Duration, lazy int, data []byte, sample bool) c19Load {
 	var r c19Load
 	x := vs.Run1(c19Cfg, func() {
 		vs.Advance(at)
@@ -594,7 +695,7 @@ func c19LoadAt(at time.Duration, lazy int, data []byte) c19Load {
 		c19Yield() // the plugin's background goroutines (sweeper, dump loop) start now
 		var m0, m1 runtime.MemStats
 		runtime.ReadMemStats(&m0)
-		r.Status, r.Body = c19Post(c, data)
+		r.Status, r.Body, r.Peak = c19PostPeak(c, data, sample)
 		runtime.ReadMemStats(&m1)
 		r.Growth = int64(m1.HeapAlloc) - int64(m0.HeapAlloc)
 		r.Entries = c19Snapshot(c)
@@ -639,6 +740,8 @@ func c19Harmless(r c19Load, family string) (sig, desc string) {
 		return family + "/hang", "loader keeps reading after the input ended: " + r.Panic[:min(len(r.Panic), 300)]
 	case r.Panic != "":
 		return family + "/panic", r.Panic[:min(len(r.Panic), 1500)]
+	case r.Peak > c19PeakLimit:
+		return family + "/heap-peak", fmt.Sprintf("while the input was being read the live heap (after a forced collection) had grown by %d MiB (limit %d MiB; the loader needs one block of at most 1 MiB plus the entries it stores)", r.Peak>>20, c19PeakLimit>>20)
 	case r.Growth > c19HeapLimit:
 		return family + "/heap-growth", fmt.Sprintf("heap grew by %d MiB during one load (limit %d MiB)", r.Growth>>20, c19HeapLimit>>20)
 	}
@@ -727,7 +830,7 @@ func c19CheckTrunc(cf c19Conf, dump []byte, k int, intact map[string]c19Snap, st
 
 // c19CheckFile: corrupted / arbitrary input: harmless; classified by what happened.
 func c19CheckFile(family, region string, at time.Duration, lazy int, data []byte, intact map[string]c19Snap) (outcome, sig, desc, infra string) {
-	r := c19LoadAt(at, lazy, data)
+	r := c19LoadAtPeak(at, lazy, data, family == "adv")
 	if r.Infra != "" {
 		return "", "", "", r.Infra
 	}
@@ -817,7 +920,7 @@ func c19AlignedDump(target int) ([]byte, bool) {
 			return nil
 		}
 		now := vs.Epoch.Add(c19DumpAt).Unix()
-		return &CachedEntry{Key: []byte(verifMsgKey(q)), CacheExpirationTime: now + 300, MsgExpirationTime: now + 300, MsgStoredTime: now, Msg: b}
+		return c19WithKey(&CachedEntry{CacheExpirationTime: now + 300, MsgExpirationTime: now + 300, MsgStoredTime: now, Msg: b}, verifMsgKey(q))
 	}
 	for pad := target - 900; pad < target; pad++ {
 		if pad < 0 {
@@ -857,7 +960,7 @@ func c19Adversarial(thorough bool) []c19Adv {
 	}()
 	exp := vs.Epoch.Add(c19DumpAt + time.Hour).Unix()
 	okEntry := func(k string) *CachedEntry {
-		return &CachedEntry{Key: []byte(k), Msg: okMsg, CacheExpirationTime: exp, MsgExpirationTime: exp, MsgStoredTime: vs.Epoch.Unix()}
+		return c19WithKey(&CachedEntry{Msg: okMsg, CacheExpirationTime: exp, MsgExpirationTime: exp, MsgStoredTime: vs.Epoch.Unix()}, k)
 	}
 	raw := func(name string, parts ...[]byte) func() []byte {
 		return func() []byte {
@@ -878,7 +981,7 @@ func c19Adversarial(thorough bool) []c19Adv {
 			})
 		}
 	}
-	bomb := 32 << 20
+	bomb := 128 << 20
 	if thorough {
 		bomb = 256 << 20
 	}
@@ -890,7 +993,7 @@ func c19Adversarial(thorough bool) []c19Adv {
 	manyKeys := func() []byte { // a block full of distinct tiny entries
 		var es []*CachedEntry
 		for i := 0; i < 20000; i++ {
-			es = append(es, &CachedEntry{Key: []byte(fmt.Sprintf("k%05d", i)), Msg: hdrOnly, CacheExpirationTime: exp, MsgExpirationTime: exp})
+			es = append(es, c19WithKey(&CachedEntry{Msg: hdrOnly, CacheExpirationTime: exp, MsgExpirationTime: exp}, fmt.Sprintf("k%05d", i)))
 		}
 		return c19Block(es...)
 	}()
@@ -912,12 +1015,12 @@ func c19Adversarial(thorough bool) []c19Adv {
 		{"short-length-header", raw(dumpHeader, []byte{0, 0, 0})},
 		{"valid-block-then-garbage", raw(dumpHeader, c19Block(okEntry("a")), []byte("garbage!garbage!garbage!"))},
 		{"valid-block-then-huge-len", raw(dumpHeader, c19Block(okEntry("a")), u64(math.MaxUint64))},
-		{"entry-empty-msg", raw(dumpHeader, c19Block(&CachedEntry{Key: []byte("a"), CacheExpirationTime: exp, MsgExpirationTime: exp}))},
-		{"entry-garbage-msg", raw(dumpHeader, c19Block(&CachedEntry{Key: []byte("a"), Msg: bytes.Repeat([]byte{0xff}, 600), CacheExpirationTime: exp, MsgExpirationTime: exp}))},
+		{"entry-empty-msg", raw(dumpHeader, c19Block(c19WithKey(&CachedEntry{CacheExpirationTime: exp, MsgExpirationTime: exp}, "a")))},
+		{"entry-garbage-msg", raw(dumpHeader, c19Block(c19WithKey(&CachedEntry{Msg: bytes.Repeat([]byte{0xff}, 600), CacheExpirationTime: exp, MsgExpirationTime: exp}, "a")))},
 		{"entry-empty-key", raw(dumpHeader, c19Block(okEntry("")))},
-		{"entry-times-maxint64", raw(dumpHeader, c19Block(&CachedEntry{Key: []byte("a"), Msg: okMsg, CacheExpirationTime: math.MaxInt64, MsgExpirationTime: math.MaxInt64, MsgStoredTime: math.MaxInt64}))},
-		{"entry-times-minint64", raw(dumpHeader, c19Block(&CachedEntry{Key: []byte("a"), Msg: okMsg, CacheExpirationTime: math.MinInt64, MsgExpirationTime: math.MinInt64, MsgStoredTime: math.MinInt64}))},
-		{"entry-exp-max-stored-min", raw(dumpHeader, c19Block(&CachedEntry{Key: []byte("a"), Msg: okMsg, CacheExpirationTime: 1 << 40, MsgExpirationTime: 1 << 40, MsgStoredTime: math.MinInt64}))},
+		{"entry-times-maxint64", raw(dumpHeader, c19Block(c19WithKey(&CachedEntry{Msg: okMsg, CacheExpirationTime: math.MaxInt64, MsgExpirationTime: math.MaxInt64, MsgStoredTime: math.MaxInt64}, "a")))},
+		{"entry-times-minint64", raw(dumpHeader, c19Block(c19WithKey(&CachedEntry{Msg: okMsg, CacheExpirationTime: math.MinInt64, MsgExpirationTime: math.MinInt64, MsgStoredTime: math.MinInt64}, "a")))},
+		{"entry-exp-max-stored-min", raw(dumpHeader, c19Block(c19WithKey(&CachedEntry{Msg: okMsg, CacheExpirationTime: 1 << 40, MsgExpirationTime: 1 << 40, MsgStoredTime: math.MinInt64}, "a")))},
 		{"protobuf-unknown-fields", raw(dumpHeader, append(u64(6), 0x10, 0x01, 0x1a, 0x02, 0x61, 0x62))},
 		{"protobuf-truncated-varint", raw(dumpHeader, append(u64(3), 0x0a, 0xff, 0xff))},
 		{"two-gzip-members", func() []byte {
@@ -1293,6 +1396,7 @@ func TestVerifC19(t *testing.T) {
 	res.Bounds["answer_templates"] = len(c19Tpls)
 	res.Bounds["store_instants"] = "second i mod 9 (ages 8..0 s at the dump), +500 ms for odd entries in the sub-second family"
 	res.Bounds["heap_limit_mib"] = c19HeapLimit >> 20
+	res.Bounds["live_heap_peak_limit_mib(adversarial files, sampled at every read of the input after a forced GC)"] = c19PeakLimit >> 20
 
 	var unit int64
 	var notes []string
